@@ -425,7 +425,23 @@ def gen_submodule():
     return "GenSubmodule.v", text, {"submodule_handler_is_modelled": ok}
 
 
-GENERATORS = {"proc": gen_proc, "vte": gen_vte, "features": gen_features, "syntax": gen_syntax, "counter": gen_counter, "grep": gen_grep, "merge": gen_merge, "sbs": gen_sbs, "hunkpath": gen_hunkpath, "ingest": gen_ingest, "submodule": gen_submodule}
+def gen_links():
+    """is format_osc8_file_hyperlink (src/features/hyperlinks.rs) the template instantiation Links.v models?"""
+    src = rustsrc.load(os.path.join(REPO, "src/features/hyperlinks.rs"))
+    body = norm(rustsrc.fn_body(src, r"pub fn format_osc8_file_hyperlink<"))
+    want = ('debug_assert!(absolute_path.as_ref().is_absolute()); let mut url = config .hyperlinks_file_link_format '
+            '.replace("{path}", &absolute_path.as_ref().to_string_lossy()); if let Some(host) = &config.hostname { url = url.replace("{host}", host) } '
+            'if let Some(n) = line_number { url = url.replace("{line}", &format!("{n}")) } else { url = url.replace("{line}", "") }; '
+            'Cow::from(format_osc8_hyperlink(&url, text))')
+    ok = body == want
+    text = ("(* GENERATED by tools/translate.py from src/features/hyperlinks.rs (format_osc8_file_hyperlink): {path}, then {host} if a host\n"
+            "   name is known, then {line} - by the decimal number, or by nothing when the link has no line number - are replaced in the\n"
+            "   configured template, and the result is wrapped by format_osc8_hyperlink: the shape Links.v models. *)\n"
+            f"Definition file_link_url_is_modelled : bool := {coq_bool(ok)}.\n")
+    return "GenLinks.v", text, {"file_link_url_is_modelled": ok}
+
+
+GENERATORS = {"proc": gen_proc, "vte": gen_vte, "features": gen_features, "syntax": gen_syntax, "counter": gen_counter, "grep": gen_grep, "merge": gen_merge, "sbs": gen_sbs, "hunkpath": gen_hunkpath, "ingest": gen_ingest, "submodule": gen_submodule, "links": gen_links}
 
 
 def run(which=None):
